@@ -458,11 +458,8 @@ func runNative(files []harnessFile, pkgDir, pkgName string, harnesses []string, 
 	ovPath := filepath.Join(outDir, "overlay.json")
 	os.WriteFile(ovPath, ovb, 0644)
 	listPath := filepath.Join(outDir, "replays.txt")
-	os.WriteFile(listPath, []byte(strings.Join(replays, "\n")+"\n"), 0644)
 	resPath := filepath.Join(outDir, "results.jsonl")
 	os.Remove(resPath)
-	cmd := exec.Command("go", "test", "-tags", "verif", "-vet=off", "-count=1", "-timeout", "300s", "-overlay", ovPath, "-run", "^TestVerifReplay$", pkgDir)
-	cmd.Dir = repoDir
 	env := []string{}
 	for _, kv := range os.Environ() {
 		if strings.HasPrefix(kv, "GOSUMDB=") || strings.HasPrefix(kv, "GOTOOLCHAIN=") || strings.HasPrefix(kv, "GOFLAGS=") {
@@ -471,25 +468,57 @@ func runNative(files []harnessFile, pkgDir, pkgName string, harnesses []string, 
 		env = append(env, kv)
 	}
 	env = append(env, "GOFLAGS=-mod=mod", "GOPROXY=off", "VERIF_REPLAY_LIST="+listPath, "VERIF_RESULT="+resPath)
-	cmd.Env = env
-	out, err := cmd.CombinedOutput()
 	res := map[string]NativeResult{}
-	b, rerr := os.ReadFile(resPath)
-	if rerr == nil {
-		for _, line := range strings.Split(string(b), "\n") {
-			if strings.TrimSpace(line) == "" {
-				continue
-			}
-			var r NativeResult
-			if json.Unmarshal([]byte(line), &r) == nil {
-				res[r.Replay] = r
+	todo := replays
+	// The replays run in order in one test process. A panic on a goroutine the harness does not
+	// own (or a fatal runtime error) kills that process: the replay that was running is the
+	// first one without a result; it is recorded as crashed and the rest is run again.
+	for crashes := 0; len(todo) > 0; {
+		os.WriteFile(listPath, []byte(strings.Join(todo, "\n")+"\n"), 0644)
+		cmd := exec.Command("go", "test", "-tags", "verif", "-vet=off", "-count=1", "-timeout", "300s", "-overlay", ovPath, "-run", "^TestVerifReplay$", pkgDir)
+		cmd.Dir = repoDir
+		cmd.Env = env
+		out, err := cmd.CombinedOutput()
+		if b, rerr := os.ReadFile(resPath); rerr == nil {
+			for _, line := range strings.Split(string(b), "\n") {
+				if strings.TrimSpace(line) == "" {
+					continue
+				}
+				var r NativeResult
+				if json.Unmarshal([]byte(line), &r) == nil {
+					res[r.Replay] = r
+				}
 			}
 		}
-	}
-	if err != nil && len(res) < len(replays) {
-		return res, fmt.Errorf("native replay run failed: %v\n%s", err, tail(string(out), 3000))
+		first := -1
+		for i, p := range todo {
+			if _, ok := res[p]; !ok {
+				first = i
+				break
+			}
+		}
+		if first < 0 {
+			break
+		}
+		msg := crashLine(string(out))
+		if err == nil || msg == "" || crashes >= 20 {
+			return res, fmt.Errorf("native replay run failed: %v\n%s", err, tail(string(out), 3000))
+		}
+		crashes++
+		res[todo[first]] = NativeResult{Replay: todo[first], Panic: "process crashed: " + msg}
+		todo = todo[first+1:]
 	}
 	return res, nil
+}
+
+// crashLine finds the Go runtime's "panic: …" / "fatal error: …" line in a test binary's output.
+func crashLine(out string) string {
+	for _, l := range strings.Split(out, "\n") {
+		if strings.HasPrefix(l, "panic: ") || strings.HasPrefix(l, "fatal error: ") {
+			return l
+		}
+	}
+	return ""
 }
 
 func tail(s string, n int) string {
